@@ -351,3 +351,21 @@ Proof.
   rewrite (nest_false_pfx _ [] prefix t). rewrite eids_nest; [reflexivity|].
   eapply Forall_impl; [|exact Hlv]. intros [[kw n] h] (Hkw & _ & _ & Hcn & _). split; assumption.
 Qed.
+
+(* C12 at document level, for nests: only the ORDER of the indentation widths matters - two texts with the same levels and the same
+   line, indented by any two strictly growing sequences of widths, convert to the same document *)
+Corollary nest_ignores_widths uri prefix l0 (lv lv' : list (nat * plevel)) kt kt' t root_meta att_meta :
+  assoc_str uri meta_templates = Some (root_meta, att_meta) ->
+  map snd lv = map snd lv' ->
+  Forall plevel_full (l0 :: map snd lv) ->
+  growing 0 (map (fun kl => (fst kl, header (snd kl))) lv ++ [(kt, t)]) ->
+  growing 0 (map (fun kl => (fst kl, header (snd kl))) lv' ++ [(kt', t)]) ->
+  plain_text t -> none_starts block_lits t = true -> p_safe t = true -> starts_with SUBH t = false -> no_ctl_start t = true ->
+  convert uri (of_string "hier_element") prefix (stair_text ((0%nat, header l0) :: rows_of lv kt t))
+  = convert uri (of_string "hier_element") prefix (stair_text ((0%nat, header l0) :: rows_of lv' kt' t)).
+Proof.
+  intros Hm Es Hl Hg Hg' Ht Hb Hp Hs Hc.
+  rewrite (hier_chain_converts uri prefix l0 lv kt t root_meta att_meta Hm Hl Hg Ht Hb Hp Hs Hc).
+  rewrite Es in Hl. rewrite (hier_chain_converts uri prefix l0 lv' kt' t root_meta att_meta Hm Hl Hg' Ht Hb Hp Hs Hc).
+  rewrite Es. reflexivity.
+Qed.
